@@ -717,6 +717,20 @@ class Translator:
         if k == "ReturnStmt":
             if not s.get("inner"):
                 return final
+            # `return a = e;` / `return a op= e;` on a whole local or parameter (the compound assignment operators of
+            # LinearSpace / AffineSpace / Quaternion): the value of the assignment expression is the new value of `a`
+            r = self.strip(s["inner"][0])
+            if (r["kind"] == "BinaryOperator" and r.get("opcode") == "=") or r["kind"] == "CompoundAssignOperator" or \
+                    (r["kind"] == "CXXOperatorCallExpr" and self.callee_decl(r["inner"][0]).get("name", "") in
+                     ("operator=", "operator+=", "operator-=", "operator*=", "operator/=")):
+                tgt = r["inner"][1] if r["kind"] == "CXXOperatorCallExpr" else r["inner"][0]
+                root, rid, path = self.lvalue_root(tgt, env)
+                if path:
+                    raise Unsupported("returned assignment to a member")
+                a = self.assign_stmt(s["inner"][0], env)
+                if a is None:
+                    raise Unsupported("returned assignment")
+                return a[1]
             return self.expr(s["inner"][0], env)
         if k == "DeclStmt":
             out = []
